@@ -24,10 +24,10 @@ pub(super) fn read_values(
 ) -> Result<Vec<Option<Value>>, DecodeError> {
     let value_ty = read_type(src)
         .map_err(DecodeError::InvalidType)?
-        .expect("unhandled type");
+        .ok_or(DecodeError::TypeMismatch)?;
 
     match (number, ty, value_ty) {
-        (Number::Count(0), _, _) => todo!("invalid number for type"),
+        (Number::Count(0), _, _) => Err(DecodeError::TypeMismatch),
 
         (_, _, Type::Int8(0) | Type::Int16(0) | Type::Int32(0) | Type::Float(0)) => {
             Err(DecodeError::InvalidLength)
@@ -63,12 +63,12 @@ pub(super) fn read_values(
             read_string_array_values(src, sample_count, n)
         }
 
-        _ => todo!("unhandled type"),
+        _ => Err(DecodeError::TypeMismatch),
     }
 }
 
 fn read_i8_values(src: &mut &[u8], sample_count: usize) -> Result<Vec<Option<Value>>, DecodeError> {
-    let mut values = Vec::with_capacity(sample_count);
+    let mut values = Vec::new();
 
     for _ in 0..sample_count {
         let value = read_i8(src)
@@ -78,7 +78,7 @@ fn read_i8_values(src: &mut &[u8], sample_count: usize) -> Result<Vec<Option<Val
         match value {
             Int8::Value(n) => values.push(Some(Value::from(i32::from(n)))),
             Int8::Missing => values.push(None),
-            _ => todo!("unhandled i8 value: {:?}", value),
+            _ => return Err(DecodeError::InvalidValue),
         }
     }
 
@@ -90,7 +90,7 @@ fn read_i8_array_values(
     sample_count: usize,
     len: usize,
 ) -> Result<Vec<Option<Value>>, DecodeError> {
-    let mut values = Vec::with_capacity(sample_count);
+    let mut values = Vec::new();
 
     for _ in 0..sample_count {
         let buf = read_i8s(src, len).map_err(DecodeError::InvalidRawValue)?;
@@ -99,12 +99,12 @@ fn read_i8_array_values(
             .into_iter()
             .map(Int8::from)
             .filter_map(|value| match value {
-                Int8::Value(n) => Some(Some(i32::from(n))),
-                Int8::Missing => Some(None),
+                Int8::Value(n) => Some(Ok(Some(i32::from(n)))),
+                Int8::Missing => Some(Ok(None)),
                 Int8::EndOfVector => None,
-                _ => todo!("unhandled i8 array value: {:?}", value),
+                _ => Some(Err(DecodeError::InvalidValue)),
             })
-            .collect();
+            .collect::<Result<_, _>>()?;
 
         if vs.len() == 1 && vs[0].is_none() {
             values.push(None);
@@ -120,7 +120,7 @@ fn read_i16_values(
     src: &mut &[u8],
     sample_count: usize,
 ) -> Result<Vec<Option<Value>>, DecodeError> {
-    let mut values = Vec::with_capacity(sample_count);
+    let mut values = Vec::new();
 
     for _ in 0..sample_count {
         let value = read_i16(src)
@@ -130,7 +130,7 @@ fn read_i16_values(
         match value {
             Int16::Value(n) => values.push(Some(Value::from(i32::from(n)))),
             Int16::Missing => values.push(None),
-            _ => todo!("unhandled i16 value: {:?}", value),
+            _ => return Err(DecodeError::InvalidValue),
         }
     }
 
@@ -142,7 +142,7 @@ fn read_i16_array_values(
     sample_count: usize,
     len: usize,
 ) -> Result<Vec<Option<Value>>, DecodeError> {
-    let mut values = Vec::with_capacity(sample_count);
+    let mut values = Vec::new();
 
     for _ in 0..sample_count {
         let buf = read_i16s(src, len).map_err(DecodeError::InvalidRawValue)?;
@@ -151,12 +151,12 @@ fn read_i16_array_values(
             .into_iter()
             .map(Int16::from)
             .filter_map(|value| match value {
-                Int16::Value(n) => Some(Some(i32::from(n))),
-                Int16::Missing => Some(None),
+                Int16::Value(n) => Some(Ok(Some(i32::from(n)))),
+                Int16::Missing => Some(Ok(None)),
                 Int16::EndOfVector => None,
-                _ => todo!("unhandled i16 array value: {:?}", value),
+                _ => Some(Err(DecodeError::InvalidValue)),
             })
-            .collect();
+            .collect::<Result<_, _>>()?;
 
         if vs.len() == 1 && vs[0].is_none() {
             values.push(None);
@@ -172,7 +172,7 @@ fn read_i32_values(
     src: &mut &[u8],
     sample_count: usize,
 ) -> Result<Vec<Option<Value>>, DecodeError> {
-    let mut values = Vec::with_capacity(sample_count);
+    let mut values = Vec::new();
 
     for _ in 0..sample_count {
         let value = read_i32(src)
@@ -182,7 +182,7 @@ fn read_i32_values(
         match value {
             Int32::Value(n) => values.push(Some(Value::from(n))),
             Int32::Missing => values.push(None),
-            _ => todo!("unhandled i32 value: {:?}", value),
+            _ => return Err(DecodeError::InvalidValue),
         }
     }
 
@@ -194,7 +194,7 @@ fn read_i32_array_values(
     sample_count: usize,
     len: usize,
 ) -> Result<Vec<Option<Value>>, DecodeError> {
-    let mut values = Vec::with_capacity(sample_count);
+    let mut values = Vec::new();
 
     for _ in 0..sample_count {
         let buf = read_i32s(src, len).map_err(DecodeError::InvalidRawValue)?;
@@ -203,12 +203,12 @@ fn read_i32_array_values(
             .into_iter()
             .map(Int32::from)
             .filter_map(|value| match value {
-                Int32::Value(n) => Some(Some(n)),
-                Int32::Missing => Some(None),
+                Int32::Value(n) => Some(Ok(Some(n))),
+                Int32::Missing => Some(Ok(None)),
                 Int32::EndOfVector => None,
-                _ => todo!("unhandled i32 array value: {:?}", value),
+                _ => Some(Err(DecodeError::InvalidValue)),
             })
-            .collect();
+            .collect::<Result<_, _>>()?;
 
         if vs.len() == 1 && vs[0].is_none() {
             values.push(None);
@@ -224,7 +224,7 @@ fn read_f32_values(
     src: &mut &[u8],
     sample_count: usize,
 ) -> Result<Vec<Option<Value>>, DecodeError> {
-    let mut values = Vec::with_capacity(sample_count);
+    let mut values = Vec::new();
 
     for _ in 0..sample_count {
         let value = read_f32(src)
@@ -234,7 +234,7 @@ fn read_f32_values(
         match value {
             Float::Value(n) => values.push(Some(Value::from(n))),
             Float::Missing => values.push(None),
-            _ => todo!("unhandled f32 value: {:?}", value),
+            _ => return Err(DecodeError::InvalidValue),
         }
     }
 
@@ -246,7 +246,7 @@ fn read_f32_array_values(
     sample_count: usize,
     len: usize,
 ) -> Result<Vec<Option<Value>>, DecodeError> {
-    let mut values = Vec::with_capacity(sample_count);
+    let mut values = Vec::new();
 
     for _ in 0..sample_count {
         let buf = read_f32s(src, len).map_err(DecodeError::InvalidRawValue)?;
@@ -255,12 +255,12 @@ fn read_f32_array_values(
             .into_iter()
             .map(Float::from)
             .filter_map(|value| match value {
-                Float::Value(n) => Some(Some(n)),
-                Float::Missing => Some(None),
+                Float::Value(n) => Some(Ok(Some(n))),
+                Float::Missing => Some(Ok(None)),
                 Float::EndOfVector => None,
-                _ => todo!("unhandled f32 array value: {:?}", value),
+                _ => Some(Err(DecodeError::InvalidValue)),
             })
-            .collect();
+            .collect::<Result<_, _>>()?;
 
         if vs.len() == 1 && vs[0].is_none() {
             values.push(None);
@@ -292,11 +292,11 @@ fn read_char_values(
 ) -> Result<Vec<Option<Value>>, DecodeError> {
     const MISSING: char = '.';
 
-    let mut values = Vec::with_capacity(sample_count);
+    let mut values = Vec::new();
 
     for _ in 0..sample_count {
         let s = read_string_until_nul(src, len)?;
-        let c = s.chars().next().unwrap();
+        let c = s.chars().next().ok_or(DecodeError::InvalidValue)?;
 
         let value = match c {
             MISSING => None,
@@ -317,18 +317,19 @@ fn read_char_array_values(
     const DELIMITER: char = ',';
     const MISSING: char = '.';
 
-    let mut values = Vec::with_capacity(sample_count);
+    let mut values = Vec::new();
 
     for _ in 0..sample_count {
         let s = read_string_until_nul(src, len)?;
 
         let value = Value::from(
             s.split(DELIMITER)
-                .map(|t| match t.chars().next().unwrap() {
-                    MISSING => None,
-                    c => Some(c),
+                .map(|t| match t.chars().next() {
+                    Some(MISSING) => Ok(None),
+                    Some(c) => Ok(Some(c)),
+                    None => Err(DecodeError::InvalidValue),
                 })
-                .collect::<Vec<_>>(),
+                .collect::<Result<Vec<_>, _>>()?,
         );
 
         values.push(Some(value));
@@ -344,7 +345,7 @@ fn read_string_values(
 ) -> Result<Vec<Option<Value>>, DecodeError> {
     const MISSING: &str = ".";
 
-    let mut values = Vec::with_capacity(sample_count);
+    let mut values = Vec::new();
 
     for _ in 0..sample_count {
         let value = match read_string_until_nul(src, len)? {
@@ -367,7 +368,7 @@ fn read_string_array_values(
     const DELIMITER: char = ',';
     const MISSING: &str = ".";
 
-    let mut values = Vec::with_capacity(sample_count);
+    let mut values = Vec::new();
 
     for _ in 0..sample_count {
         let buf = read_string(src, len).map_err(DecodeError::InvalidRawValue)?;
@@ -399,7 +400,7 @@ pub(super) fn read_genotype_values(
     src: &mut &[u8],
     sample_count: usize,
 ) -> Result<Vec<Option<Value>>, DecodeError> {
-    let mut values = Vec::with_capacity(sample_count);
+    let mut values = Vec::new();
 
     match read_type(src).map_err(DecodeError::InvalidType)? {
         Some(Type::Int8(len)) => match len {
@@ -423,7 +424,7 @@ pub(super) fn read_genotype_values(
                 }
             }
         },
-        ty => todo!("unhandled type: {:?}", ty),
+        _ => return Err(DecodeError::TypeMismatch),
     }
 
     Ok(values)
@@ -473,6 +474,8 @@ pub enum DecodeError {
     InvalidRawValue(raw_value::DecodeError),
     InvalidString(str::Utf8Error),
     InvalidGenotype,
+    InvalidValue,
+    TypeMismatch,
 }
 
 impl error::Error for DecodeError {
@@ -494,6 +497,8 @@ impl fmt::Display for DecodeError {
             Self::InvalidRawValue(_) => write!(f, "invalid raw value"),
             Self::InvalidString(_) => write!(f, "invalid string"),
             Self::InvalidGenotype => write!(f, "invalid genotype"),
+            Self::InvalidValue => write!(f, "invalid value"),
+            Self::TypeMismatch => write!(f, "type mismatch"),
         }
     }
 }
